@@ -28,25 +28,32 @@ def run(ctx):
     e, d = F.inlined(enc[0]), F.inlined(dec[0])     # private helpers of the encoder / decoder are part of them
     # ---- writer table: prefix const -> payload source
     wt = {}
-    ins = [c for c in e.calls() if (c.method or "") == "insert" and "Vec" in (c.target_path or "") and not e.is_cleanup(c.bb)]
     ext = [c for c in e.calls() if (c.method or "") == "extend_from_slice" and not e.is_cleanup(c.bb)]
+    # the prefix write: `insert(0, tag)`, or a `push(tag)` that precedes every payload write
+    ins = [c for c in e.calls() if (c.method or "") == "insert" and "Vec" in (c.target_path or "") and not e.is_cleanup(c.bb)]
+    ins += [c for c in e.calls() if (c.method or "") == "push" and "Vec" in (c.target_path or "") and not e.is_cleanup(c.bb)
+            and ext and all(e.dominates(c.bb, x.bb) and c.bb != x.bb for x in ext)]
+    from terms import paired_alternatives
     for c in ins:
-        v = origin(e, c.args[2])
-        if v[0] != "const":
-            continue
         # the extend_from_slice reached from this insert without passing another insert
         reach = e.reachable(c.bb, avoid={x.bb for x in ins if x is not c})
         srcs = [x for x in ext if x.bb in reach]
-        kind = "?"
-        if srcs:
-            t = origin(e, srcs[0].args[1])
+        if not srcs:
+            v = origin(e, c.args[-1])
+            if v[0] == "const":
+                wt[v[1]] = "?"
+            continue
+        for v, t in paired_alternatives(e, c.args[-1], srcs[0].args[1]):
+            if v[0] != "const":
+                continue
+            kind = "?"
             if mentions(t, "nada"):
                 kind = "nada"
             elif mentions(t, "zstd") or mentions(t, "compress") or mentions(t, "from_elem"):
                 kind = "zstd"
             elif mentions(t, "bytes"):
                 kind = "raw"
-        wt[v[1]] = kind
+            wt[v[1]] = kind
     R.ob(wt == {0: "raw", 1: "nada", 2: "zstd"}, "CODEC", e.where(), "CODEC|inscription|writer-table", "encoder prefix table is %s; expected {0: raw, 1: nada, 2: zstd}" % wt,
          sample={"rule": "CODEC prefix table", "side": "writer", "table": {str(k): v for k, v in wt.items()}})
     # every text the encoder hands out is base64(prefix ++ payload): each Ok return carries the result of the base64 engine, and
